@@ -276,8 +276,25 @@ def run(ctx):
     for bi, t in sc.calls(exact=CT + "::join"):
         ok = any(a[0] == "rel" and a[1] == "Eq" and strip(a[3]) == ("int", 1) for a in sc.facts_at(bi))
         ctx.require(ok, "T3-connect-guards", sc.name, "join", "join only when exactly one entry is missing (gap == 1)", "join is not guarded by gap == 1", sc.span_of(bi))
+    sres = [norm(sc.local_origin(t["dest"]["l"]), g) for bi, t in sc.calls(exact="fpgroups::cosets::scan_both_ways") if not t["dest"]["p"]]
+    F_ = lambda s_, i: ("field", s_, str(i))
+    for bi, t in sc.calls(exact=CT + "::join"):
+        a = [strip(norm(sc.origin(x), g)) for x in t["args"]]
+        okj = any(a[1:] == [F_(s_, 0), F_(s_, 1), F_(s_, 3)] and any(atom_norm(x, g) == ("rel", "Eq", F_(s_, 2), ("int", 1)) for x in sc.facts_at(bi)) for s_ in sres)
+        ctx.require(okj, "T3-connect-guards", sc.name, "join(head, tail, c) <- gap == 1", "the deduction joins head and tail of this scan under its letter when its gap is 1",
+                    "join is not join(head, tail, c) of the scan under gap == 1 of that scan", sc.span_of(bi))
     for bi, t in sc.calls(exact=CT + "::merge"):
-        fa = sc.facts_at(bi)
-        ok = any(a[0] == "rel" and a[1] == "Eq" and strip(a[3]) == ("int", 0) for a in fa) and any(a[0] == "rel" and a[1] == "Ne" for a in fa)
-        ctx.require(ok, "T3-connect-guards", sc.name, "merge", "merge only on a closed scan with head != tail", "merge is not guarded by gap == 0 && head != tail", sc.span_of(bi))
+        fa = [atom_norm(x, g) for x in sc.facts_at(bi)]
+        a = [strip(norm(sc.origin(x), g)) for x in t["args"]]
+        ok = False
+        for s_ in sres:
+            rel = [x for x in fa if x[0] == "rel" and any(isinstance(y, tuple) and contains(y, lambda z: z == s_) or y in (("param", 3, sc.debug.get(3, "")),) for y in x[2:])]
+            exact = sorted(str(x) for x in rel if x[1] in ("Eq", "Ne") and not (x[1] == "Ne" and x[2] == F_(s_, 2))) 
+            want = sorted(str(x) for x in (("rel", "Eq", F_(s_, 2), ("int", 0)), ("rel", "Ne", F_(s_, 0), F_(s_, 1))))
+            want2 = sorted(str(x) for x in (("rel", "Eq", F_(s_, 2), ("int", 0)), ("rel", "Ne", F_(s_, 1), F_(s_, 0))))
+            if a[1:] in ([F_(s_, 0), F_(s_, 1)], [F_(s_, 1), F_(s_, 0)]) and exact in (want, want2):
+                ok = True
+        ctx.require(ok, "T3-connect-guards", sc.name, "merge", "merge(head, tail) exactly on a closed scan (gap == 0) whose head and tail differ",
+                    "the coincidence test is not `gap == 0 && head != tail` on this scan's own head and tail (dominating comparisons: %s): a completely traced word that ends in the wrong row is no longer merged, "
+                    "the enumeration keeps defining rows and never closes" % [show_atom(x)[:40] for x in fa if x[0] == "rel"][:4], sc.span_of(bi))
     ctx.floor("join/merge sites in scan_and_connect", len(list(sc.calls(exact=CT + "::join"))) + len(list(sc.calls(exact=CT + "::merge"))), 2)
